@@ -161,6 +161,17 @@ claim("C08",
   TB + "The real optimizer's termination argument differs for rules the model represents differently, so measure non-decrease on real instances is evidence only. Known finding: optimize-not-idempotent:FromArray._simplify_up.",
   "DESIGN.md §4 C08")
 
+claim("C23",
+  "Lean 4 theorems over a history model of the Random expression (seeds drawn at construction, stored in the node value, carried through __reduce__) + the mirrored _block_id_to_flat_index loop; tied by correspondence (flat index, grids, real seed vectors and task arguments) and a NumPy-on-first-realisation search",
+  "15 theorems: along any history of computes, rewrites that reuse or substitute around the node, pickles and rebuilds every observation of the node uses the same seed vector; same seed/shape/chunks give the same seeds; the block-id to flat-index map is a bijection from the grid onto range(#blocks) for all ranks, so culling a block never shifts other blocks' seeds.",
+  TB + "Covers nodes without array-valued parameters (a witness proves the statement fails otherwise: listed known finding). RandomChoice, NumPy's SeedSequence/BitGenerator streams and fusion machinery are correspondence/search only. Unseeded generators out of scope.",
+  "DESIGN.md §4 C23")
+claim("C11",
+  "Lean 4 theorems over a collection-store machine (immutable expression values, _replace_expr drops the lowered cache) and a model of parse_assignment_indices + the per-block arithmetic of setitem_array_expr; tied by correspondence with real tasks and a random history search against NumPy mirrors with source fingerprints",
+  "15 theorems: frame (an op on x leaves every other collection's meaning unchanged, for all histories) and cache invariant; chunked x[s] = v equals NumPy's assignment for all axis lengths, chunkings, slices of any sign/step and broadcast values (1-D list theorem and n-D per-axis theorem for slice and int keys); parse_assignment_indices selects the same positions (reversed when flagged).",
+  TB + "The store theorems assume a sound materialize/eval (C01/C02). List, boolean and dask-array keys, higher-rank value broadcasting and the where path are search-only. Three known findings listed.",
+  "DESIGN.md §4 C11")
+
 
 def build():
     props = [json.loads(l) for l in (VERIF / "properties.jsonl").read_text().splitlines() if l.strip()]
